@@ -6,6 +6,8 @@ import ast
 
 from ..core import (AnalysisError, body_nodes, call_name, dotted, is_self_attr, key_text, kwarg,
                     names_in, params, parent, self_method_calls, stmts_of, unparse)
+from ..dtable import UNKNOWN, run_paths
+from ..dtable import _val as dval
 from ..flow import check_errflow
 
 MPO = 'tenpy/networks/mpo.py'
@@ -151,6 +153,50 @@ def check_id_pairing(prog, rep):
     return n
 
 
+def _bound_arg(call, pnames, name, env):
+    """the actual argument bound to parameter `name` of a constructor call"""
+    for k in call.keywords:
+        if k.arg == name:
+            return k.value
+    pn = [x for x in pnames if x not in ('self', 'cls')]
+    if name in pn and pn.index(name) < len(call.args):
+        return call.args[pn.index(name)]
+    return None
+
+
+def check_derived_range(prog, rep):
+    """max_range of a derived MPO: unknown (None) as soon as one of the summands has unknown
+    range, else the larger one — decided as a table over (known / unknown) x (known / unknown).
+    to_TermList / is_equal / is_hermitian truncate at max_range, so a too small value silently
+    drops terms."""
+    m = prog.module(MPO)
+    f = m.func('MPO.__add__')
+    init = params(m.func('MPO.__init__'))
+    body = [s for s in f.body if not (isinstance(s, ast.Expr) and isinstance(s.value, ast.Constant))]
+    for a in (None, 2):
+        for b in (None, 5):
+            want = None if (a is None or b is None) else max(a, b)
+            got = set()
+            for p in run_paths(body, {'self.max_range': a, 'other.max_range': b,
+                                      'self.explicit_plus_hc != other.explicit_plus_hc': False}):
+                if p.outcome != 'return' or not isinstance(p.value, ast.Call):
+                    continue
+                arg = _bound_arg(p.value, init, 'max_range', p.env)
+                v = dval(arg, {'self.max_range': a, 'other.max_range': b}, p.env) \
+                    if arg is not None else None
+                got.add('?' if v is UNKNOWN else v)
+            rep.instance('RANGE-derived', {'self.max_range': a, 'other.max_range': b,
+                                           'sum.max_range': sorted(map(str, got))})
+            if '?' in got:
+                continue    # not decidable from the source: no verdict
+            if got != {want}:
+                rep.violation('RANGE-derived', m, 'MPO.__add__', 'sum-range:%s:%s' % (a, b),
+                              'max_range of self+other for ranges (%s, %s) is %s, expected %s: an '
+                              'unknown range of one summand makes the range of the sum unknown; '
+                              'to_TermList/is_equal/is_hermitian cut terms beyond max_range' %
+                              (a, b, sorted(map(str, got)), want), f.lineno)
+
+
 def check_apply_errflow(prog, rep):
     m = prog.module(MPO)
     prod = {'svd_theta': 3, 'compress_svd': None, 'compress': None, 'run': None,
@@ -178,10 +224,13 @@ def run(prog, rep, tier):
     rep.rule('HCFLAG-derived', 'derived MPOs inherit the flag; __add__ compares flags; dagger and '
              'the propagators treat it explicitly')
     rep.rule('ID-pairing', 'identity indices from get_IdL slice wL legs, from get_IdR wR legs')
+    rep.rule('RANGE-derived', 'decision table of max_range of a sum over known/unknown ranges')
     rep.rule('MPO-errflow', 'truncation errors of the apply methods reach the returned value')
     n1 = check_hcflag_mpo(prog, rep)
     n2 = check_id_pairing(prog, rep)
     check_apply_errflow(prog, rep)
+    check_derived_range(prog, rep)
+    rep.floor('RANGE-derived', 4)
     rep.floor('HCFLAG-mpo', 20)
     rep.floor('HCFLAG-derived', 5)
     rep.assumptions += ['operator values and propagator error scaling are NOT decided']
